@@ -1,7 +1,12 @@
 // C21: tracer (engine S) and driver for the isotropic moduli conversions and stiffness tensors of /repo.
-//   trace gen <out.v> <seed> : Coq definitions + Sym-vs-double agreement
+//   trace gen <out.v> <seed> : Coq definitions + Sym-vs-double agreement; one definition per (hypothesis, axes convention,
+//                              alteration) combination that the header provides (PROVIDED lines)
+//   trace run                 : the double instantiation on the inputs read from stdin; tensors are pre-filled with NaN so that
+//                              an entry that the code never writes is seen
 #include "symtfel.hxx"
+#include <cmath>
 #include <cstring>
+#include <functional>
 #include <iostream>
 #include "TFEL/Math/st2tost2.hxx"
 #include "TFEL/Material/Lame.hxx"
@@ -12,6 +17,15 @@ using namespace symv;
 using namespace tfel::material;
 using MH = ModellingHypothesis;
 using STAC = StiffnessTensorAlterationCharacteristic;
+using OAC = OrthotropicAxesConvention;
+
+// value the tensors are filled with before the call: 0 while tracing / comparing, NaN in `run` mode
+static double g_fill = 0;
+template <typename M>
+void prefill(M& C) {
+  using T = std::decay_t<decltype(C(0, 0))>;
+  for (auto& x : C) x = T(g_fill);
+}
 
 template <unsigned short N, typename T>
 std::vector<T> flat(const tfel::math::st2tost2<N, T>& C) {
@@ -47,21 +61,56 @@ std::vector<T> f(const int w, const std::vector<T>& p) {
       tfel::math::st2tost2<3u, T> D = C - (3 * km.first * J + 2 * km.second * K);
       return flat<3u, T>(D);
     }
-    case 8: { tfel::math::st2tost2<3u, T> C; computeIsotropicStiffnessTensor<MH::TRIDIMENSIONAL, STAC::UNALTERED>(C, p[0], p[1]); return flat<3u, T>(C); }
-    case 9: { tfel::math::st2tost2<2u, T> C; computeIsotropicStiffnessTensor<MH::PLANESTRAIN, STAC::UNALTERED>(C, p[0], p[1]); return flat<2u, T>(C); }
-    case 10: { tfel::math::st2tost2<2u, T> C; computeIsotropicStiffnessTensor<MH::PLANESTRESS, STAC::ALTERED>(C, p[0], p[1]); return flat<2u, T>(C); }
-    case 11: { tfel::math::st2tost2<1u, T> C; computeIsotropicStiffnessTensor<MH::AXISYMMETRICALGENERALISEDPLANESTRESS, STAC::ALTERED>(C, p[0], p[1]); return flat<1u, T>(C); }
-    case 12: { tfel::math::st2tost2<3u, T> C; computeOrthotropicStiffnessTensor<MH::TRIDIMENSIONAL, STAC::UNALTERED>(C, p[0], p[1], p[2], p[3], p[4], p[5], p[6], p[7], p[8]); return flat<3u, T>(C); }
-    case 13: { tfel::math::st2tost2<2u, T> C; computeOrthotropicStiffnessTensor<MH::PLANESTRAIN, STAC::UNALTERED>(C, p[0], p[1], p[2], p[3], p[4], p[5], p[6], p[7], p[8]); return flat<2u, T>(C); }
-    case 14: { tfel::math::st2tost2<2u, T> C; computeOrthotropicStiffnessTensor<MH::PLANESTRESS, STAC::ALTERED>(C, p[0], p[1], p[2], p[3], p[4], p[5], p[6], p[7], p[8]); return flat<2u, T>(C); }
-    case 15: { tfel::math::st2tost2<1u, T> C; computeOrthotropicStiffnessTensor<MH::AXISYMMETRICALGENERALISEDPLANESTRESS, STAC::ALTERED>(C, p[0], p[1], p[2], p[3], p[4], p[5], p[6], p[7], p[8]); return flat<1u, T>(C); }
-    case 16: { tfel::math::st2tost2<1u, T> C; computeOrthotropicStiffnessTensor<MH::AXISYMMETRICALGENERALISEDPLANESTRAIN, STAC::UNALTERED>(C, p[0], p[1], p[2], p[3], p[4], p[5], p[6], p[7], p[8]); return flat<1u, T>(C); }
-    case 17: { tfel::math::st2tost2<2u, T> C; computeOrthotropicStiffnessTensor<MH::PLANESTRAIN, STAC::UNALTERED, OrthotropicAxesConvention::PIPE>(C, p[0], p[1], p[2], p[3], p[4], p[5], p[6], p[7], p[8]); return flat<2u, T>(C); }
-    case 18: { tfel::math::st2tost2<2u, T> C; computeOrthotropicStiffnessTensor<MH::PLANESTRAIN, STAC::UNALTERED, OrthotropicAxesConvention::PLATE>(C, p[0], p[1], p[2], p[3], p[4], p[5], p[6], p[7], p[8]); return flat<2u, T>(C); }
-    case 19: { tfel::math::st2tost2<2u, T> C; computeOrthotropicStiffnessTensor<MH::PLANESTRESS, STAC::ALTERED, OrthotropicAxesConvention::PLATE>(C, p[0], p[1], p[2], p[3], p[4], p[5], p[6], p[7], p[8]); return flat<2u, T>(C); }
-    default: { tfel::math::st2tost2<3u, T> C; computeOrthotropicStiffnessTensor<MH::TRIDIMENSIONAL, STAC::UNALTERED, OrthotropicAxesConvention::PLATE>(C, p[0], p[1], p[2], p[3], p[4], p[5], p[6], p[7], p[8]); return flat<3u, T>(C); }
+    case 8: { tfel::math::st2tost2<3u, T> C; prefill(C); computeIsotropicStiffnessTensor<MH::TRIDIMENSIONAL, STAC::UNALTERED>(C, p[0], p[1]); return flat<3u, T>(C); }
+    case 9: { tfel::math::st2tost2<2u, T> C; prefill(C); computeIsotropicStiffnessTensor<MH::PLANESTRAIN, STAC::UNALTERED>(C, p[0], p[1]); return flat<2u, T>(C); }
+    case 10: { tfel::math::st2tost2<2u, T> C; prefill(C); computeIsotropicStiffnessTensor<MH::PLANESTRESS, STAC::ALTERED>(C, p[0], p[1]); return flat<2u, T>(C); }
+    case 11: { tfel::math::st2tost2<1u, T> C; prefill(C); computeIsotropicStiffnessTensor<MH::AXISYMMETRICALGENERALISEDPLANESTRESS, STAC::ALTERED>(C, p[0], p[1]); return flat<1u, T>(C); }
+    case 12: { tfel::math::st2tost2<3u, T> C; prefill(C); computeOrthotropicStiffnessTensor<MH::TRIDIMENSIONAL, STAC::UNALTERED>(C, p[0], p[1], p[2], p[3], p[4], p[5], p[6], p[7], p[8]); return flat<3u, T>(C); }
+    case 13: { tfel::math::st2tost2<2u, T> C; prefill(C); computeOrthotropicStiffnessTensor<MH::PLANESTRAIN, STAC::UNALTERED>(C, p[0], p[1], p[2], p[3], p[4], p[5], p[6], p[7], p[8]); return flat<2u, T>(C); }
+    case 14: { tfel::math::st2tost2<2u, T> C; prefill(C); computeOrthotropicStiffnessTensor<MH::PLANESTRESS, STAC::ALTERED>(C, p[0], p[1], p[2], p[3], p[4], p[5], p[6], p[7], p[8]); return flat<2u, T>(C); }
+    case 15: { tfel::math::st2tost2<1u, T> C; prefill(C); computeOrthotropicStiffnessTensor<MH::AXISYMMETRICALGENERALISEDPLANESTRESS, STAC::ALTERED>(C, p[0], p[1], p[2], p[3], p[4], p[5], p[6], p[7], p[8]); return flat<1u, T>(C); }
+    case 16: { tfel::math::st2tost2<1u, T> C; prefill(C); computeOrthotropicStiffnessTensor<MH::AXISYMMETRICALGENERALISEDPLANESTRAIN, STAC::UNALTERED>(C, p[0], p[1], p[2], p[3], p[4], p[5], p[6], p[7], p[8]); return flat<1u, T>(C); }
+    case 17: { tfel::math::st2tost2<2u, T> C; prefill(C); computeOrthotropicStiffnessTensor<MH::PLANESTRAIN, STAC::UNALTERED, OrthotropicAxesConvention::PIPE>(C, p[0], p[1], p[2], p[3], p[4], p[5], p[6], p[7], p[8]); return flat<2u, T>(C); }
+    case 18: { tfel::math::st2tost2<2u, T> C; prefill(C); computeOrthotropicStiffnessTensor<MH::PLANESTRAIN, STAC::UNALTERED, OrthotropicAxesConvention::PLATE>(C, p[0], p[1], p[2], p[3], p[4], p[5], p[6], p[7], p[8]); return flat<2u, T>(C); }
+    case 19: { tfel::math::st2tost2<2u, T> C; prefill(C); computeOrthotropicStiffnessTensor<MH::PLANESTRESS, STAC::ALTERED, OrthotropicAxesConvention::PLATE>(C, p[0], p[1], p[2], p[3], p[4], p[5], p[6], p[7], p[8]); return flat<2u, T>(C); }
+    default: { tfel::math::st2tost2<3u, T> C; prefill(C); computeOrthotropicStiffnessTensor<MH::TRIDIMENSIONAL, STAC::UNALTERED, OrthotropicAxesConvention::PLATE>(C, p[0], p[1], p[2], p[3], p[4], p[5], p[6], p[7], p[8]); return flat<3u, T>(C); }
   }
 }
+// ---- every (hypothesis, convention, alteration) combination provided by the header (completeness of the dispatch class)
+template <MH::Hypothesis h, STAC a, OAC c>
+constexpr bool stiff_ok = requires { sizeof(tfel::material::internals::ComputeOrthotropicStiffnessTensor<h, a, c>); };
+template <MH::Hypothesis h, STAC a, OAC c, typename T>
+std::vector<T> combo(const std::vector<T>& p) {
+  constexpr unsigned short N = ModellingHypothesisToSpaceDimension<h>::value;
+  tfel::math::st2tost2<N, T> C;
+  prefill(C);
+  computeOrthotropicStiffnessTensor<h, a, c, T, T>(C, p[0], p[1], p[2], p[3], p[4], p[5], p[6], p[7], p[8]);
+  return flat<N, T>(C);
+}
+struct Combo {
+  int h, c, a;
+  std::string name;
+  std::function<std::vector<Sym>(const std::vector<Sym>&)> fs;
+  std::function<std::vector<double>(const std::vector<double>&)> fd;
+};
+static const char* hshort[7] = {"agpstrain", "agpstress", "axis", "pstress", "pstrain", "gpstrain", "tri"};
+static const char* cshort[3] = {"default", "pipe", "plate"};
+template <MH::Hypothesis h, OAC c, STAC a>
+void add_combo(std::vector<Combo>& v) {
+  if constexpr (stiff_ok<h, a, c>) {
+    v.push_back({int(h), int(c), int(a), std::string("oc_") + hshort[int(h)] + "_" + cshort[int(c)] + (a == STAC::ALTERED ? "_a" : "_u"),
+                 [](const std::vector<Sym>& p) { return combo<h, a, c, Sym>(p); }, [](const std::vector<double>& p) { return combo<h, a, c, double>(p); }});
+  }
+}
+template <int... I>
+std::vector<Combo> all_combos(std::integer_sequence<int, I...>) {
+  std::vector<Combo> v;
+  // I runs over 7 hypotheses x 3 conventions x 2 alterations
+  (add_combo<static_cast<MH::Hypothesis>(I / 6), static_cast<OAC>((I / 2) % 3), static_cast<STAC>(I % 2)>(v), ...);
+  return v;
+}
+static_assert(int(MH::TRIDIMENSIONAL) == 6 && int(MH::UNDEFINEDHYPOTHESIS) == 7 && int(OAC::PLATE) == 2 && int(STAC::ALTERED) == 1);
+
 static const char* names[21] = {"from_young_nu", "from_kg", "from_lambda_mu", "lame", "stiff_young_nu", "stiff_kg", "kg_of_stiff", "iso_defect",
                                 "iso3d", "iso_pstrain", "iso_pstress", "iso_agps", "ortho3d", "ortho_pstrain", "ortho_pstress", "ortho_agps",
                                 "ortho_agpstrain", "ortho_pstrain_pipe", "ortho_pstrain_plate", "ortho_pstress_plate", "ortho3d_plate"};
@@ -105,15 +154,43 @@ int main(int argc, char** argv) {
         std::printf("\n");
       }
     }
+    const auto combos = all_combos(std::make_integer_sequence<int, 42>{});
+    for (size_t q = 0; q < combos.size(); ++q) {
+      const auto& cb = combos[q];
+      std::vector<Sym> ps;
+      for (auto s : pn9) ps.push_back(var(s));
+      auto o = cb.fs(ps);
+      tr.def(cb.name, ps, o);
+      std::printf("PROVIDED %d %d %d %s %zu %zu\n", cb.h, cb.c, cb.a, cb.name.c_str(), o.size(), 100 + q);
+      for (int i = 0; i < 30; ++i) {
+        Env env;
+        std::vector<double> dv;
+        for (size_t k = 0; k < 9; ++k) {
+          const double v = (k < 3 || k > 5) ? rng.range(50, 200) : rng.range(0.05, 0.3);
+          env[pn9[k]] = v;
+          dv.push_back(v);
+        }
+        auto d = cb.fd(dv);
+        bool ok = d.size() == o.size();
+        long double sc = 0;
+        for (double x : d) sc = std::max<long double>(sc, std::fabs(x));
+        for (size_t k = 0; ok && k < d.size(); ++k) ok = close(eval(o[k], env), d[k], sc, 1e-11L);
+        std::printf("%s %s", ok ? "AGREE" : "AGREE-FAIL", cb.name.c_str());
+        for (double x : dv) std::printf(" %.17g", x);
+        std::printf("\n");
+      }
+    }
     tr.write(argv[2]);
     return 0;
   }
   if (argc >= 2 && !std::strcmp(argv[1], "run")) {
+    const auto combos = all_combos(std::make_integer_sequence<int, 42>{});
+    g_fill = std::nan("");
     int w;
     while (std::cin >> w) {
-      std::vector<double> p(nin[w]);
+      std::vector<double> p(w >= 100 ? 9 : nin[w]);
       for (auto& x : p) std::cin >> x;
-      auto d = f<double>(w, p);
+      auto d = w >= 100 ? combos.at(w - 100).fd(p) : f<double>(w, p);
       std::printf("V %d", w);
       for (double x : d) std::printf(" %.17g", x);
       std::printf("\n");
